@@ -71,7 +71,7 @@ def run(ctx):
                                              [deg(RSym(r2)), deg(RSym(p2)), deg(RSym(h2))]]))
     bk = flat(back)
     _congruent_atan2(ctx, "C17.rph.roundtrip.roll", bk[0], r, sp.cos(p), py)
-    _asin_is(ctx, "C17.rph.roundtrip.pitch", bk[1], p)
+    ctx.guard(_asin_is, ctx, "C17.rph.roundtrip.pitch", bk[1], p)
     _congruent_atan2(ctx, "C17.rph.roundtrip.heading", bk[2], h, sp.cos(p), py)
     bk2 = flat(back2)
     for i, (e, a, pp) in enumerate(zip(bk2, [r, p, h, r2, p2, h2], [p, p, p, p2, p2, p2])):
@@ -84,10 +84,10 @@ def run(ctx):
                 bk, full_domain(py, BOX), py=py)
 
     # ---- rotation vector -> matrix (numba kernel source, both branches) --------------
-    _rotvec(ctx, py)
+    ctx.guard(_rotvec, ctx, py)
 
     # ---- Euler-error Jacobian --------------------------------------------------------------
-    _euler_jacobian(ctx, py)
+    ctx.guard(_euler_jacobian, ctx, py)
 
 
 # -----------------------------------------------------------------------------------------------
